@@ -1110,7 +1110,14 @@ func (p Patch) test(doc *container, op Operation, options *ApplyOptions) error {
 			self.which = eAry
 		}
 
-		if self.equal(op.value()) {
+		// equal parses nodes lazily and in place; compare a copy so that a
+		// test never changes how the document is spelled on output.
+		selfCopy, _, err := deepCopy(&self, options)
+		if err != nil {
+			return fmt.Errorf("error in test for path: '%s': %w", path, err)
+		}
+
+		if selfCopy.equal(op.value()) {
 			return nil
 		}
 
@@ -1144,7 +1151,12 @@ func (p Patch) test(doc *container, op Operation, options *ApplyOptions) error {
 		return fmt.Errorf("testing value %s failed: %w", path, ErrTestFailed)
 	}
 
-	if val.equal(op.value()) {
+	valCopy, _, err := deepCopy(val, options)
+	if err != nil {
+		return fmt.Errorf("error in test for path: '%s': %w", path, err)
+	}
+
+	if valCopy.equal(op.value()) {
 		return nil
 	}
 
